@@ -622,6 +622,16 @@ def codec_skips_nothing(ctx: Ctx, rep: Report, rid: str = "R08.12") -> None:
                     return None
         return test
 
+    # the ranges handed to the interval builder are pieces of `ports.split(",")`: a pattern run over the whole string
+    # cannot see two ranges that share a separator ("1-3,5-7": the comma the first match consumed is gone for the second)
+    for f in units:
+        for x in own_nodes(f.node):
+            if isinstance(x, ast.Call) and isinstance(x.func, ast.Attribute) and isinstance(x.func.value, ast.Name) and x.func.value.id == "re" and x.func.attr in ("findall", "finditer", "split", "search", "match"):
+                pat = ctx.folder.fold(x.args[0], f.module) if x.args else None
+                if isinstance(pat, str) and "-" in pat and ("," in pat or "^" in pat):
+                    n += 1
+                    rep.instance()
+                    rep.violation(f.qualname, snippet(x, 70), "the ranges are cut out of the whole string by a pattern that matches the separators too: of two ranges that follow each other directly the second is not found, and the ports it stands for are missing from the set that is read back", where(f, x), inp="'1-79,81-65535' (what `neq 80` renders)")
     for f in units:
         for x in own_nodes(f.node):
             if isinstance(x, (ast.SetComp, ast.ListComp)) and len(x.generators) == 1 and x.generators[0].ifs and isinstance(x.generators[0].target, ast.Name):
